@@ -118,6 +118,9 @@ def judge_factory(rec, cfg):
             pulls = got_by[nid]
             if len(pds) != len(pulls) and rec.crash is None:
                 v("C08", "draws", f"machine {nid}: {len(pulls)} items pulled, {len(pds)} processing delays drawn")
+            ndraw = sum(1 for a in acts for x in a["calls"] if x.startswith("draw "))
+            if ndraw != len(pulls) and rec.crash is None:
+                v("C08", "draws", f"machine {nid}: {len(pulls)} items pulled but the processing-delay source was consulted {ndraw} times")
             offer = {}   # worker ordinal -> (time of its timer activation)
             spawned = []
             for a in acts:
@@ -142,6 +145,15 @@ def judge_factory(rec, cfg):
                 spawned = [int(x.split()[1][1:]) for x in a["calls"] if x.startswith("spawn ")]
                 is_decision = bool(cans)
                 if is_decision:
+                    room = a.get("room")
+                    pol = c.get("out", "FIRST_AVAILABLE")
+                    if pol == "FIRST_AVAILABLE" and room is not None and any(room):
+                        lowest = room.index(True)
+                        probed_true = [int(x.split()[1][1:]) for x in cans if x.endswith(" 1")]
+                        if d != pdisc or not probed_true:
+                            v("C09", "discard-with-room", f"non-blocking {kind} {nid} dropped an item at t={a['t']} although out-edge {lowest} had room (can_put per out-edge: {room})")
+                        elif probed_true[0] != lowest:
+                            v("C15", "first-available", f"non-blocking {kind} {nid} chose out-edge {probed_true[0]} although out-edge {lowest} had room")
                     anytrue = any(x.endswith(" 1") for x in cans)
                     pushes = [p for p in spawned]
                     if kind == "machine" and a["proc"] == 0: pushes = []
@@ -216,6 +228,24 @@ def judge_factory(rec, cfg):
                 v("C15", "constant", f"source {nid}: constant out-edge {outp} but pushed to {sorted(set(used))}")
             if outp == "ROUND_ROBIN" and c.get("blocking", True) and used != [i % nout for i in range(len(used))]:
                 v("C15", "round-robin", f"source {nid}: ROUND_ROBIN out-edge sequence is {used[:10]}")
+        # C08 / C10: a process waiting on reservation tokens goes on in the very instant the first of them is granted
+        fire = {}
+        for ev, tm in rec.env.fired_log:
+            k = rec.tok_ord.get(id(ev))
+            if k is not None and k[0] == nid and k[1] not in fire: fire[k[1]] = f2t(tm)
+        waiting = {}     # proc -> list of token ordinals awaited
+        for a in acts:
+            p = a["proc"]
+            if p in waiting:
+                toks = waiting.pop(p)
+                ft = [fire[t] for t in toks if t in fire]
+                if ft and a["t"] > min(ft):
+                    what = "took the item" if any(x.startswith("get ") for x in a["calls"]) else "pushed / went on"
+                    v("C10", "late-resume", f"{kind} {nid} process {p} waited for tokens {toks}; the first was granted at t={min(ft)} but it {what} only at t={a['t']}")
+                    if kind == "machine" and a["kind"] == "worker":
+                        v("C08", "late-offer", f"machine {nid}: a finished item could have left at t={min(ft)} (a permitted out-edge granted space) but left at t={a['t']}")
+            res = [int(x.split()[2][1:]) for x in a["calls"] if x.startswith(("rg ", "rp "))]
+            if res and any(x.startswith("await ") for x in a["calls"][-1:]): waiting[p] = res
         # C19: monotone time per node
         ts = [a["t"] for a in acts]
         if any(b < a for a, b in zip(ts, ts[1:])):
@@ -239,6 +269,36 @@ def finalize_and_judge_states(rec, cfg, T):
             A = tt["SETUP_STATE"] + tt["IDLE_STATE"] + tt["ATLEAST_ONE_PROCESSING_STATE"] + tt["ALL_ACTIVE_BLOCKED_STATE"]
             B = tt["SETUP_STATE"] + tt["IDLE_STATE"] + tt["ALL_ACTIVE_PROCESSING_STATE"] + tt["ATLEAST_ONE_BLOCKED_STATE"]
             occ = sum(n.time_per_work_occupancy)
+            # truthfulness: measure processing / blocked / idle time independently from the activation log
+            acts = [a for a in rec.acts if a["node"] == nid]
+            seen = {}; iv = []       # per worker: (spawn, timer, end)
+            alive = {}
+            for a in acts:
+                if a["kind"] != "worker": continue
+                p = a["proc"]; seen[p] = seen.get(p, 0) + 1
+                if seen[p] == 1: alive[p] = [a["t"], None, None]
+                elif seen[p] == 2: alive[p][1] = a["t"]
+                if not a["alive"]: alive[p][2] = a["t"]
+            tend = None
+            for a in acts:
+                if a["proc"] == 0 and a["stats"] and a["stats"]["rep"] == (0, 0) and tend is None: tend = a["t"]
+            if tend is not None:
+                pts = sorted({tend, T} | {x for w in alive.values() for x in w if x is not None and tend <= x <= T})
+                m = dict(idle=0, aop=0, allb=0, aap=0, aob=0)
+                for lo, hi in zip(pts, pts[1:]):
+                    mid2 = lo + hi       # compare doubled midpoints to stay in integers
+                    np_ = sum(1 for (s0, s1, s2) in alive.values() if 2 * s0 <= mid2 and (s1 is None or mid2 < 2 * s1))
+                    nb = sum(1 for (s0, s1, s2) in alive.values() if s1 is not None and 2 * s1 <= mid2 and (s2 is None or mid2 < 2 * s2))
+                    d = hi - lo
+                    if np_ == 0 and nb == 0: m["idle"] += d
+                    if np_ > 0: m["aop"] += d
+                    if np_ == 0 and nb > 0: m["allb"] += d
+                    if np_ > 0 and nb == 0: m["aap"] += d
+                    if nb > 0: m["aob"] += d
+                got = dict(idle=f2t(tt["IDLE_STATE"]), aop=f2t(tt["ATLEAST_ONE_PROCESSING_STATE"]), allb=f2t(tt["ALL_ACTIVE_BLOCKED_STATE"]),
+                           aap=f2t(tt["ALL_ACTIVE_PROCESSING_STATE"]), aob=f2t(tt["ATLEAST_ONE_BLOCKED_STATE"]))
+                if got != m:
+                    V.append(("C17", "truthful", f"machine {nid}: charged {got} but measured from pulls / timers / pushes {m}"))
             for name, s in (("group idle/at-least-one-processing/all-blocked", A), ("group idle/all-processing/at-least-one-blocked", B),
                             ("worker-occupancy histogram", occ)):
                 if f2t(s) != T:
